@@ -1,10 +1,13 @@
-BOUNDS = ('per query the carrier / partition / channel index / pixel count are concrete and all data is symbolic: every content of the buffer '
+BOUNDS = ('per query the carrier / partition / channel index / operation / pixel count are concrete and all data is symbolic: every content of the buffer '
           '(carrier, neighbouring pixels AND 8 guard bytes on each side), every written value 0..2^bits-1, every addend 0..65535 for += / -=, every start bit 0..7 '
-          'of bit-aligned references and dynamic channel references, every n in [-16,16] and start byte 0..3 x start bit 0..7 for the iterator laws. '
-          'Enumerated: single channel references packed_channel_reference<BF,first,bits> for bits 1..8 (+10,12,16) at selected (quick) / all (thorough: 8- and 16-bit carriers; boundary set for 32/64-bit) first bits '
-          'over 8/16/32/64-bit carriers; packed_pixel partitions 565, 556, 332, 4-4, 2-2-2-2, 1x8, 10-10-10-2, 5-5-5-1, 5-5-5(+1 unused), 2-2-2(+2 unused), 5-6-5 in 32/64-bit carriers; '
-          'bit-aligned pixel sizes 1,2,3,4,6,7,12,16 (thorough also 8, 10, 32 and wider BitFields) with fill/copy of 3 (thorough 1..4) pixels')
-OUTSIDE = ('channel widths > 16 bits except 10-10-10-2; first bits of 32/64-bit carriers outside the enumerated set; assignment of an out-of-range integer (> 2^bits-1) through operator=(integer_t), '
+          'of the written bit-aligned reference / iterator and of dynamic channel references, every n in [-16,16] x start byte 0..3 x start bit 0..7 for the iterator laws. '
+          'The start bit of a second (source / swap partner) bit-aligned reference is concrete per query (quick: one value per type, thorough: all 8). '
+          'Enumerated: single channel references packed_channel_reference<BF,first,bits> / packed_dynamic_channel_reference<BF,bits> for bits 1..8 (+10,12,16) at selected (quick) / all (thorough: 8- and 16-bit '
+          'carriers; first bits {0,1,7,8,15,16,24,31,32,33,47,56,last} for 32/64-bit carriers) first bits; packed_pixel partitions 565, 332, 1x8, 10-10-10-2, 5-5-5(+1 unused), 5-6-5 in a 64-bit carrier '
+          '(thorough: 556, 4-4, 2-2-2-2, 5-5-5-1, 2-2-2, 8-8-8-8, 16x4, ...); bit-aligned pixel sizes 1,2,3,4,6,7,12 (thorough also 5,8,10,16,32 and wider BitFields) with std::fill / std::copy of 3 '
+          '(thorough 1..4) pixels')
+OUTSIDE = ('channel widths > 16 bits except 10-10-10-2 (observed outside the bound: packed_dynamic_channel_reference shifts integer_t, so a 26..32-bit channel at first bit > 0 loses its top bits); '
+           'first bits of 32/64-bit carriers outside the enumerated set; assignment of an out-of-range integer (> 2^bits-1) through operator=(integer_t), '
            'which the library documents as a precondition (BOOST_ASSERT); unused carrier bits under same-type copy assignment / std::swap of packed_pixel VALUES (the implicit copy assignment copies the '
            'whole carrier of the value: frame = the pixel\'s own carrier); *= and /= on channel proxies; overlapping source/destination ranges in std::copy; big-endian carriers')
 ASSUMPTIONS = ['values assigned through operator=(integer_t) are <= the channel maximum (documented precondition)',
@@ -16,14 +19,16 @@ SRC = 'C08/bits.cpp'
 def chan_queries(tier):
     qs = []
     # (carrier bits, first bit, width)
-    quick_static = [(8, 0, 1), (8, 7, 1), (8, 3, 5), (8, 0, 8), (16, 5, 6), (16, 11, 5), (16, 4, 12), (16, 0, 16), (32, 10, 10), (32, 30, 2), (64, 20, 7), (64, 57, 7), (64, 48, 16)]
-    quick_dyn = [(8, 1), (16, 2), (16, 5), (16, 8), (32, 7), (32, 16), (64, 3), (64, 12)]
+    quick_static = [(8, 0, 1), (8, 3, 5), (8, 0, 8), (16, 5, 6), (16, 4, 12), (32, 10, 10), (64, 20, 7), (64, 48, 16)]
+    quick_cross = [(16, 5, 6), (32, 10, 10), (64, 20, 7)]
+    quick_dyn = [(8, 1), (16, 5), (16, 8), (32, 16), (64, 3)]
     static = list(quick_static); dyn = list(quick_dyn)
     if tier == 'thorough':
+        static += [(8, 7, 1), (16, 11, 5), (16, 0, 16), (32, 30, 2), (64, 57, 7)]
         for B in (8, 16, 32, 64):
             for n in list(range(1, 9)) + [10, 12, 16]:
                 if n > B: continue
-                firsts = range(0, B - n + 1) if B <= 16 else sorted(set(f for f in [0, 1, 7, 8, 9, 15, 16, 17, 23, 24, 31, 32, 33, 40, 47, 48, 55, 56, B - n - 1, B - n] if 0 <= f <= B - n))
+                firsts = range(0, B - n + 1) if B <= 16 else sorted(set(f for f in [0, 1, 7, 8, 15, 16, 24, 31, 32, 33, 47, 56, B - n] if 0 <= f <= B - n))
                 for f in firsts:
                     if (B, f, n) not in static: static.append((B, f, n))
                 if n + 7 <= B and (B, n) not in dyn: dyn.append((B, n))
@@ -33,71 +38,81 @@ def chan_queries(tier):
         d = dict(PART=1, BF_T=U[B], FIRSTBIT=f, NBITS=n, DYNAMIC=0, CROSS=cross)
         nm = 'chan/u%d_f%d_n%d' % (B, f, n)
         for e in ('h_set', 'h_arith', 'h_assign_ref', 'h_swap'):
-            qs.append(Q('%s/%s' % (nm, e[2:]), SRC, e, defs=d, unwind=28, tier=t, timeout=120))
-        if cross:
+            qs.append(Q('%s/%s' % (nm, e[2:]), SRC, e, defs=d, unwind=40, tier=t, timeout=120))
+        if cross and ((B, f, n) in quick_cross or f in (0, B - n)):
             for k, w in ((0, 'static_from_dynamic'), (1, 'dynamic_from_static')):
-                qs.append(Q('%s/%s' % (nm, w), SRC, 'h_cross', defs=d, params=[k], unwind=28, tier=t, timeout=120))
+                qs.append(Q('%s/%s' % (nm, w), SRC, 'h_cross', defs=d, params=[k], unwind=120, tier=t if (B, f, n) in quick_cross else 'thorough', timeout=120))
     for (B, n) in dyn:
         t = 'quick' if (B, n) in quick_dyn else 'thorough'
         d = dict(PART=1, BF_T=U[B], FIRSTBIT=0, NBITS=n, DYNAMIC=1, CROSS=0)
         nm = 'dchan/u%d_n%d' % (B, n)
         for e in ('h_set', 'h_arith', 'h_assign_ref', 'h_swap'):
-            qs.append(Q('%s/%s' % (nm, e[2:]), SRC, e, defs=d, unwind=28, tier=t, timeout=120))
+            qs.append(Q('%s/%s' % (nm, e[2:]), SRC, e, defs=d, unwind=120, tier=t, timeout=120))
     return qs
 
 # packed_pixel partitions: (carrier bits, sizes, quick?)
-PACKED = [(16, (5, 6, 5), 1), (8, (3, 3, 2), 1), (8, (1,) * 8, 1), (32, (10, 10, 10, 2), 1), (16, (5, 5, 5, 1), 1), (16, (5, 5, 5), 1), (8, (2, 2, 2), 1), (64, (5, 6, 5), 1),
-          (16, (5, 5, 6), 0), (8, (4, 4), 0), (8, (2, 2, 2, 2), 0), (32, (5, 6, 5), 0), (32, (8, 8, 8, 8), 0), (64, (16, 16, 16, 16), 0), (16, (1,) * 8, 0), (64, (10, 10, 10, 2), 0), (8, (8,), 0), (8, (1,), 0), (16, (16,), 0)]
+PACKED = [(16, (5, 6, 5), 1), (8, (3, 3, 2), 1), (8, (1,) * 8, 1), (32, (10, 10, 10, 2), 1), (16, (5, 5, 5), 1), (64, (5, 6, 5), 1),
+          (16, (5, 5, 5, 1), 0), (8, (2, 2, 2), 0), (16, (5, 5, 6), 0), (8, (4, 4), 0), (8, (2, 2, 2, 2), 0), (32, (5, 6, 5), 0), (32, (8, 8, 8, 8), 0), (64, (16, 16, 16, 16), 0), (16, (1,) * 8, 0),
+          (64, (10, 10, 10, 2), 0), (8, (8,), 0), (8, (1,), 0), (16, (16,), 0)]
 def szname(s): return ''.join(str(x) for x in s) if max(s) < 10 and len(s) < 8 else ('%dx%d' % (s[0], len(s)) if len(set(s)) == 1 else '_'.join(str(x) for x in s))
 def packed_queries(tier):
     qs = []
     for (B, sz, qk) in PACKED:
         t = 'quick' if qk else 'thorough'
-        d = dict(PART=2, BF_T=U[B], SIZES=','.join(str(x) for x in sz))
+        other = 0 if (B == 64 and sum(sz) > 32) else 1
+        d = dict(PART=2, BF_T=U[B], SIZES=','.join(str(x) for x in sz), OTHER=other)
         nm = 'ppx/u%d_%s' % (B, szname(sz))
-        n = len(sz); buf = 16 + 3 * B // 8
-        ks = list(range(n))
-        for k in ks:
+        n = len(sz); uw = 16 + 3 * B // 8 + 8
+        for k in range(n):
             tk = t if (n <= 4 or k in (0, 3, 7)) else 'thorough'
-            qs.append(Q('%s/set_c%d' % (nm, k), SRC, 'h_px_set', defs=d, params=[k], unwind=buf + 2, tier=tk, timeout=120))
-            qs.append(Q('%s/arith_c%d' % (nm, k), SRC, 'h_px_arith', defs=d, params=[k], unwind=buf + 2, tier=tk if k in (0, n - 1) else 'thorough', timeout=120))
-            qs.append(Q('%s/swap_c%d' % (nm, k), SRC, 'h_px_swap', defs=d, params=[k], unwind=buf + 2, tier=t if k == n // 2 else 'thorough', timeout=120))
-        qs.append(Q('%s/swap_pixels' % nm, SRC, 'h_px_swap', defs=d, params=[99], unwind=buf + 2, tier=t, timeout=120))
-        for e in ('h_px_assign_other', 'h_px_assign_same'):
-            qs.append(Q('%s/%s' % (nm, e[5:]), SRC, e, defs=d, unwind=buf + 2, tier=t, timeout=120))
+            qs.append(Q('%s/set_c%d' % (nm, k), SRC, 'h_px_set', defs=d, params=[k], unwind=uw, tier=tk, timeout=120))
+            qs.append(Q('%s/arith_c%d' % (nm, k), SRC, 'h_px_arith', defs=d, params=[k], unwind=uw, tier=t if k in (0, n - 1) else 'thorough', timeout=120))
+            qs.append(Q('%s/swap_c%d' % (nm, k), SRC, 'h_px_swap', defs=d, params=[k], unwind=uw, tier=t if k == n // 2 else 'thorough', timeout=120))
+        qs.append(Q('%s/swap_pixels' % nm, SRC, 'h_px_swap', defs=d, params=[99], unwind=uw, tier=t, timeout=120))
+        for e in (('h_px_assign_other', 'h_px_construct_other') if other else ()) + ('h_px_assign_same',):
+            qs.append(Q('%s/%s' % (nm, e[5:]), SRC, e, defs=d, unwind=uw, tier=t, timeout=120))
     return qs
 
-# bit-aligned references: (BitField bits, sizes, layout or None, quick?)
-BITAL = [(8, (1,), 'gil::gray_layout_t', 1), (16, (2,), 'gil::gray_layout_t', 1), (16, (1, 1, 1), 'gil::rgb_layout_t', 1), (16, (1, 2, 1), 'gil::bgr_layout_t', 1), (16, (2, 2, 2), 'gil::rgb_layout_t', 1),
-         (16, (2, 3, 2), 'gil::bgr_layout_t', 1), (32, (4, 4, 4), 'gil::rgb_layout_t', 1), (32, (5, 6, 5), 'gil::rgb_layout_t', 1), (64, (2, 2, 2), 'gil::rgb_layout_t', 1),
+# bit-aligned references: (BitField bits, sizes, layout or None, quick level: 2 = full quick set, 1 = reduced quick set, 0 = thorough only)
+BITAL = [(8, (1,), 'gil::gray_layout_t', 2), (16, (2,), 'gil::gray_layout_t', 1), (16, (1, 1, 1), 'gil::rgb_layout_t', 1), (16, (1, 2, 1), 'gil::bgr_layout_t', 1), (16, (2, 2, 2), 'gil::rgb_layout_t', 1),
+         (16, (2, 3, 2), 'gil::bgr_layout_t', 2), (32, (4, 4, 4), 'gil::rgb_layout_t', 1),
+         (32, (5, 6, 5), 'gil::rgb_layout_t', 0), (64, (2, 2, 2), 'gil::rgb_layout_t', 0),
          (16, (4,), 'gil::gray_layout_t', 0), (16, (1, 1), None, 0), (16, (3, 3, 2), 'gil::rgb_layout_t', 0), (32, (2, 3, 2), 'gil::bgr_layout_t', 0), (32, (2, 2, 2, 2), 'gil::rgba_layout_t', 0),
          (32, (1,), 'gil::gray_layout_t', 0), (64, (10, 10, 10, 2), 'gil::rgba_layout_t', 0), (32, (10,), 'gil::gray_layout_t', 0), (32, (16,), 'gil::gray_layout_t', 0), (64, (5, 6, 5), 'gil::rgb_layout_t', 0),
          (16, (1, 1, 1, 1, 1), None, 0), (16, (7,), 'gil::gray_layout_t', 0), (16, (3,), 'gil::gray_layout_t', 0), (16, (6,), 'gil::gray_layout_t', 0), (32, (12,), 'gil::gray_layout_t', 0)]
+OPS = ['preinc', 'predec', 'postinc', 'postdec', 'add_assign', 'sub_assign']
 def bital_queries(tier):
     qs = []
-    for (B, sz, lay, qk) in BITAL:
-        t = 'quick' if qk else 'thorough'
+    for idx, (B, sz, lay, qk) in enumerate(BITAL):
         bits = sum(sz); n = len(sz)
         npix = 4 if tier == 'thorough' else 3
         d = dict(PART=3, BF_T=U[B], SIZES=','.join(str(x) for x in sz), NPIX=npix)
         if lay: d['LAYOUT'] = lay
         nm = 'bref/u%d_%s' % (B, szname(sz))
-        pxbytes = (bits + 7) // 8
-        buf = 16 + 2 * pxbytes + (14 + npix * bits) // 8
-        uw = buf + 2
+        buf = 16 + 2 * ((bits + 7) // 8) + (14 + npix * bits) // 8
+        uw = buf + 8 * npix * max(n, 3) + 40      # loop counters of inlined loops accumulate over the 8-way case split (fail-closed if too small)
+        qsb = (3 * idx + 5) % 8                    # the one concrete source start bit used by the quick tier for this type (thorough: all 8)
+        def add(name, entry, params, lvl):         # lvl: minimal quick level at which this query is in the quick tier
+            qs.append(Q('%s/%s' % (nm, name), SRC, entry, defs=d, params=params, unwind=uw, tier='quick' if (qk >= lvl and lvl > 0) else 'thorough', timeout=120))
         for k in range(n):
-            qs.append(Q('%s/set_c%d' % (nm, k), SRC, 'h_ref_set', defs=d, params=[k], unwind=uw, tier=t, timeout=120))
-            qs.append(Q('%s/arith_c%d' % (nm, k), SRC, 'h_ref_arith', defs=d, params=[k], unwind=uw, tier=t if k == n - 1 else 'thorough', timeout=120))
-            qs.append(Q('%s/swap_c%d' % (nm, k), SRC, 'h_ref_swap', defs=d, params=[10 + k], unwind=uw, tier=t if k == n // 2 else 'thorough', timeout=120))
-        for op, w in enumerate(('assign_value', 'assign_ref', 'assign_cref', 'value_from_ref', 'value_constructed')):
-            qs.append(Q('%s/%s' % (nm, w), SRC, 'h_ref_assign', defs=d, params=[op], unwind=uw, tier=t, timeout=120))
-        for op, w in enumerate(('swap_refs', 'swap_ref_value', 'swap_value_ref')):
-            qs.append(Q('%s/%s' % (nm, w), SRC, 'h_ref_swap', defs=d, params=[op], unwind=uw, tier=t if op != 2 else 'thorough', timeout=120))
-        for cnt in (range(1, npix + 1) if tier == 'thorough' else [npix]):
-            tt = t if cnt == 3 else 'thorough'
-            qs.append(Q('%s/fill_n%d' % (nm, cnt), SRC, 'h_it_fill', defs=d, params=[cnt], unwind=uw, tier=tt, timeout=120))
-            qs.append(Q('%s/copy_n%d' % (nm, cnt), SRC, 'h_it_copy', defs=d, params=[cnt], unwind=uw, tier=tt, timeout=120))
-        qs.append(Q('%s/iterator_laws' % nm, SRC, 'h_it_laws', defs=d, unwind=8, tier=t, timeout=120))
+            add('set_c%d' % k, 'h_ref_set', [k], 1)
+            for op, w in enumerate(OPS):
+                add('%s_c%d' % (w, k), 'h_ref_arith', [k, op], (1 if op == (k % 6) else 2) if k == n - 1 else 0)
+            for sb in (range(8) if k == n // 2 else [qsb]):
+                add('swap_c%d_s%d' % (k, sb), 'h_ref_swap', [10 + k, sb], 2 if (k == n // 2 and sb == qsb) else 0)
+        add('assign_value', 'h_ref_assign', [0, 0], 1)
+        add('value_from_ref', 'h_ref_assign', [3, 0], 2)
+        add('value_constructed', 'h_ref_assign', [4, 0], 2)
+        add('swap_with_value', 'h_ref_swap', [1, 0], 2)
+        for sb in range(8):
+            add('assign_ref_s%d' % sb, 'h_ref_assign', [1, sb], 1 if sb == qsb else 0)
+            add('assign_cref_s%d' % sb, 'h_ref_assign', [2, sb], 2 if sb == (qsb + 3) % 8 else 0)
+            add('swap_refs_s%d' % sb, 'h_ref_swap', [0, sb], 1 if sb == (qsb + 1) % 8 else 0)
+        for cnt in range(1, npix + 1):
+            add('fill_n%d' % cnt, 'h_it_fill', [cnt], 1 if cnt == 3 else 0)
+            for sb in (range(8) if cnt == 3 else [(qsb + 2) % 8]):
+                add('copy_n%d_s%d' % (cnt, sb), 'h_it_copy', [cnt, sb], 1 if (cnt == 3 and sb == (qsb + 2) % 8) else 0)
+        qs.append(Q('%s/iterator_laws' % nm, SRC, 'h_it_laws', defs=d, unwind=8, tier='quick' if qk else 'thorough', timeout=120))
     return qs
 
 def queries(tier, seed):
